@@ -234,6 +234,12 @@ def run_check(prop, tier, base_seed, workers=16, budget_s=None, replay=None,
         say(f"KNOWN-FINDING: property={prop} {f['what']} "
             f"[signature={f['signature']}, not reached in this run]")
 
+  if violations and os.environ.get('VSIM_DETECT_ONLY'):
+    # sensitivity runs (tools/mutants.py): detection is all that is asked; no shrinking, no replay file
+    v = violations[0]
+    say(f"  violation clause={v.get('clause')} signature={v['signature']} seed={v['seed']}: {v.get('message', '')[:400]}")
+    say(f'VIOLATION property={prop} replay=(detect-only run: no replay file written)')
+    return 1
   confirmed = []
   unconfirmed = []
   for v in violations:
